@@ -15,6 +15,11 @@ pub fn record_alphabet(q: &rd::Name) -> Vec<Rr> {
         Rr { name: rd::name("example.com"), rtype: rd::T_SOA, class: 1, ttl: 86400, rdata: Rdata::Soa(rd::name("ns1.example.com"), rd::name("hostmaster.example.com"), [2024010101, 7200, 3600, 1209600, 3600]) },
         Rr { name: q.clone(), rtype: 65280, class: 1, ttl: 1, rdata: Rdata::Raw(vec![0, 0xff, 0xc0, 0x0c, 0x00]) },
         Rr { name: rd::name("second.example.com"), rtype: rd::T_A, class: 1, ttl: 0xffff_ffff, rdata: Rdata::Raw(vec![198, 51, 100, 7]) },
+        // names whose suffix was first written *inside* the rdata of an earlier record (SOA RNAME,
+        // MX exchange, CNAME target): the usual glue / follow-up records
+        Rr { name: rd::name("www.hostmaster.example.com"), rtype: rd::T_A, class: 1, ttl: 30, rdata: Rdata::Raw(vec![203, 0, 113, 1]) },
+        Rr { name: rd::name("mx.other.example.net"), rtype: rd::T_A, class: 1, ttl: 31, rdata: Rdata::Raw(vec![203, 0, 113, 2]) },
+        Rr { name: rd::name("target.example.com"), rtype: rd::T_NS, class: 1, ttl: 32, rdata: Rdata::Name(rd::name("ns.hostmaster.example.com")) },
     ]
 }
 
@@ -46,6 +51,7 @@ pub fn cases(tier: &str) -> Vec<Value> {
         json!({"rcode": 2, "an": [], "ns": [], "ar": [], "compress": true, "opt": false}),
         json!({"rcode": 0, "an": [], "ns": [2, 3], "ar": [4, 0], "compress": true, "opt": true}),
         json!({"rcode": 23, "an": [], "ns": [], "ar": [], "compress": true, "opt": true}),
+        json!({"rcode": 0, "an": [1, 8], "ns": [3, 6], "ar": [2, 7], "compress": true, "opt": true}),
     ];
     // (a) every query shape x fixed replies
     let nrep = if thorough { fixed_replies.len() } else { 2 };
@@ -76,7 +82,7 @@ pub fn cases(tier: &str) -> Vec<Value> {
         vec![json!({"name":"www.example.com","type":1,"class":1,"edns":"plain","flags":"rd","transport":"udp"}), json!({"name":"www.example.com","type":15,"class":1,"edns":"none","flags":"rd","transport":"tcp"})]
     };
     let rcodes: Vec<u16> = if thorough { vec![0, 2, 3, 5, 23] } else { vec![0, 3] };
-    let full = lists(2, 6);
+    let full = lists(2, 9);
     let small: Vec<Vec<usize>> = vec![vec![], vec![2]];
     for q in &queries {
         for rc in &rcodes {
@@ -326,7 +332,7 @@ pub fn run(tier: &str, replay: Option<Value>) -> ! {
     let agg = netrun::run_sharded(&mut rep, "C03", tier, cases, 16);
     rep.cov("evaluations", agg.executions);
     rep.cov("distinct_nontrivial", agg.classes.len() as u64);
-    rep.cov("rule", "one fault-free exchange per execution on a fresh in-process DnsService ([::1] listener): (a) every query shape (3 names x 5 types x 2 classes x 5 EDNS x 3 flag sets x UDP/TCP) x fixed replies; (b) fixed queries x every reply shape (rcodes x one section over all record lists of length <=2 from a 6-record alphabet, the other sections in {[],[1]} x compression x OPT). distinct = (rcode, section sizes, transport) classes");
+    rep.cov("rule", "one fault-free exchange per execution on a fresh in-process DnsService ([::1] listener): (a) every query shape (3 names x 5 types x 2 classes x 5 EDNS x 3 flag sets x UDP/TCP) x fixed replies; (b) fixed queries x every reply shape (rcodes x one section over all record lists of length <=2 from a 9-record alphabet (incl. records whose names share a suffix first written inside an earlier record's rdata), the other sections in {[],[1]} x compression x OPT). distinct = (rcode, section sizes, transport) classes");
     rep.cov("exhaustive", true);
     rep.cov("outcome_classes", serde_json::json!(agg.classes));
     rep.cov("workers_in_private_netns", agg.isolated_workers as u64);
